@@ -11,6 +11,8 @@ ALL = (1 << 60) - 1
 SETTERS = {0: 'album', 1: 'artist', 2: 'average_loudness', 3: 'bitrate', 4: 'bpm', 5: 'comment', 6: 'composer', 7: 'duration', 8: 'genre', 9: 'key', 10: 'last_played_at', 11: 'main_cue',
            12: 'publisher', 13: 'rating', 14: 'sample_count', 15: 'sample_rate', 16: 'title', 17: 'track_number', 18: 'year', 19: 'hot_cues', 20: 'hot_cue_at', 21: 'loops', 22: 'loop_at',
            23: 'beatgrid', 24: 'relative_path'}
+# position of each optional field in the harness's presence mask (order of the present() calls in sym_snapshot); the new-value snapshot starts at bit 11
+FIELD_BIT = {0: 0, 1: 1, 2: 2, 3: 3, 4: 4, 5: 5, 6: 6, 7: 7, 8: 9, 9: 10, 10: 11, 11: 12, 12: 13, 13: 14, 14: 15, 15: 16, 16: 17, 17: 18, 18: 19}
 GROUP = {2: 11, 4: 12, 7: 13, 11: 14, 13: 15, 14: 16, 15: 17, 19: 2, 20: 2, 21: 2, 22: 2}      # numeric setters: only their own field symbolic (pre-state and new value)
 
 def main():
@@ -33,6 +35,11 @@ def main():
                     if op in (19, 21): p.update(cues=0x41, loops=0x20, vcues=0x05, vloops=0x02)     # stored lists longer than the new ones: the slots beyond the new list must be cleared
                     if gen == 1 and p['focus'] == 3: p.update(grid=0)          # 1.x: the stored BPM is derived from a (symbolic) grid when a sample rate is present (see C01)
                     if Q and sc != schemas[0] and op not in (4, 9, 14, 19, 24): continue
+                    if op in FIELD_BIT and sc == schemas[0]:
+                        # the same setter with an ABSENT new value over a present stored one (clearing a field through its setter)
+                        p2 = dict(p, mask=ALL & ~(1 << (11 + FIELD_BIT[op])))
+                        jobs.append(dict(harness=harness, ll=ll, entry='h_c06', params=p2, models=['zlib_identity', kv + ('_slow' if gen == 1 and op == 15 else '')], known=ck.known,
+                                         must_reach=['setter-checked', 'other-track-checked'], eng_opts=eo, replay='none', time_limit=1500, allow_throw='none', label=name + ':clear'))
                     jobs.append(dict(harness=harness, ll=ll, entry='h_c06', params=p, models=['zlib_identity', kv + ('_slow' if gen == 1 and op == 15 else '')], known=ck.known,
                                      must_reach=['setter-checked', 'other-track-checked'], eng_opts=eo, replay='none', time_limit=1500, allow_throw='none', label=name))
     if os.environ.get('VERIF_GEN'): jobs = [j for j in jobs if str(j['params']['gen']) == os.environ['VERIF_GEN']]
